@@ -453,12 +453,34 @@ def ring_chord_spec(g, menu='small', vec=None, min_sz=1):
             else:
                 terms[name] = {'type': [], 'weights': gen_weights(g, [], 'pos')}
                 rules.append({'lhs': n, 'nodes': [], 'ext': [], 'edges': [{'label': name, 'att': [], 'id': None}]})
+    top = None
+    if g.random() < 0.5:
+        # a non-recursive nonterminal next to the ring (a trivial component)
+        nts['Zt'] = {'type': list(typ)}
+        name = 'b%d' % ti
+        ti += 1
+        if vec:
+            terms[name] = {'type': ['A'], 'weights': gen_weights(g, [sz], 'pos')}
+            rules.append({'lhs': 'Zt', 'nodes': [{'label': 'A', 'id': None}], 'ext': [0], 'edges': [{'label': name, 'att': [0], 'id': None}]})
+        else:
+            terms[name] = {'type': [], 'weights': gen_weights(g, [], 'pos')}
+            rules.append({'lhs': 'Zt', 'nodes': [], 'ext': [], 'edges': [{'label': name, 'att': [], 'id': None}]})
+        # ... and a start symbol above both: the ring and the trivial component are siblings, so which of them the
+        # depth-first search finishes first is decided by the order of the two edges (the presentation)
+        nts['S0'] = {'type': []}
+        m0 = g.choice(names)
+        if vec:
+            rules.append({'lhs': 'S0', 'nodes': [{'label': 'A', 'id': None}], 'ext': [],
+                          'edges': [{'label': m0, 'att': [0], 'id': None}, {'label': 'Zt', 'att': [0], 'id': None}]})
+        else:
+            rules.append({'lhs': 'S0', 'nodes': [], 'ext': [], 'edges': [{'label': m0, 'att': [], 'id': None}, {'label': 'Zt', 'att': [], 'id': None}]})
+        top = 'S0'
     g.shuffle(rules)
     # the nts dict order is the registration order of the labels
-    order = list(names)
+    order = list(nts)
     g.shuffle(order)
     nts = {n: nts[n] for n in order}
-    return {'domains': domains, 'terms': terms, 'nts': nts, 'start': g.choice(names), 'rules': rules}
+    return {'domains': domains, 'terms': terms, 'nts': nts, 'start': top if (top and g.random() < 0.7) else g.choice(names), 'rules': rules}
 
 
 def add_neq_terminal(spec, g, menu='small'):
